@@ -5,6 +5,7 @@ import Libvna.Props.C04
 import Libvna.Props.C05
 import Libvna.Props.C06
 import Libvna.Props.C08
+import Libvna.Props.C09
 import Libvna.Props.C10
 import Libvna.Props.C12
 import Libvna.Props.C13
